@@ -160,7 +160,7 @@ def replay_cwdwalk(case):
 
 
 # ---------------------------------------------------------------- wire level with a recording backend
-VERBS = ["CWD", "MKD", "RMD", "DELE", "RNFR", "RNTO", "LIST", "MLSD", "MLST", "STOR", "APPE", "RETR", "CDUP", "CWD", "CWD"]
+VERBS = ["CWD", "MKD", "RMD", "DELE", "RNFR", "RNTO", "LIST", "MLSD", "MLST", "STOR", "APPE", "RETR", "CDUP", "CWD", "CWD", "RELOGIN"]
 WSEG = st.sampled_from(["a", "b", "..", "..", "..", ".", "", "f", "u2", "jail", "secret", "..a", "x y", "u1"])
 WPATH = st.tuples(st.sampled_from(["", "/", "//", ""]), st.lists(WSEG, max_size=6), st.sampled_from(["", "/"])).map(
     lambda t: t[0] + "/".join(t[1]) + t[2])
@@ -179,7 +179,9 @@ async def _wire(loop, backend, cmds, home, tmp, info):
         jail = tmp + "/jail"
         base = pathlib.Path(jail) / "u1"
     fac = instrument(harness.BACKENDS[backend], ctl)
-    users = [aioftp.User(base_path=base, home_path=home)]
+    base2 = base.parent / "u2"  # the second user's base: a sibling that already holds files of the same names
+    bases = [base, base2]
+    users = [aioftp.User(base_path=base, home_path=home), aioftp.User("bob", "pw", base_path=base2)]
     server = aioftp.Server(users, path_io_factory=fac, wait_future_timeout=1)
     await server.start(HOST, PORT)
     full = {}
@@ -187,13 +189,22 @@ async def _wire(loop, backend, cmds, home, tmp, info):
         full["/jail/u1" + (k if k != "/" else "")] = v
     for k, v in CANARY.items():
         full["/jail/" + k] = v
+    for k, v in INSIDE.items():
+        if k != "/":
+            full["/jail/u2" + k] = DIR if v == DIR else b"bob's " + v
     full["/jail"] = DIR
     if backend == "mem":
         harness.mem_populate(server, dict(full, **{"/": DIR}))
-        snap = lambda: {k: v for k, v in harness.mem_tree(server).items() if not k.startswith("/jail/u1")}  # noqa: E731
+        whole = lambda: harness.mem_tree(server)  # noqa: E731
     else:
         harness.fs_populate(tmp, full)
-        snap = lambda: {k: v for k, v in harness.fs_tree(tmp).items() if not k.startswith("/jail/u1")}  # noqa: E731
+        whole = lambda: harness.fs_tree(tmp)  # noqa: E731
+    cur = [0]
+
+    def snap():
+        mine = "/jail/u1" if cur[0] == 0 else "/jail/u2"
+        return {k: v for k, v in whole().items() if not (k == mine or k.startswith(mine + "/"))}
+
     canary0 = snap()
     raw = Raw(HOST, PORT, patience=20)
     await raw.connect()
@@ -205,6 +216,26 @@ async def _wire(loop, backend, cmds, home, tmp, info):
     try:
         for verb, arg in cmds:
             n0 = len(ctl.log)
+            if verb == "RELOGIN":
+                # the same control connection authenticates as the other user: everything must now resolve inside
+                # that user's base directory (the passive listener survives the re-login)
+                cur[0] = 1 - cur[0]
+                if cur[0] == 1:
+                    c1, _ = await raw.cmd("USER bob")
+                    c2, _ = await raw.cmd("PASS pw")
+                    ok = (c1, c2) == ("331", "230")
+                    model_cwd = "/"
+                else:
+                    c1, _ = await raw.cmd("USER anonymous")
+                    ok = c1 == "230"
+                    model_cwd = home
+                info["steps"].append(("RELOGIN as " + ("bob" if cur[0] else "anonymous"), [c1]))
+                if not ok:
+                    raise Violation("C02/wire/relogin_refused", dict(steps=info["steps"][-5:]))
+                base_parts = bases[cur[0]].parts
+                canary0 = snap()
+                info["relogins"] = info.get("relogins", 0) + 1
+                continue
             xfer = verb in ("LIST", "MLSD", "STOR", "APPE", "RETR")
             dsock = None
             if xfer:
@@ -238,8 +269,9 @@ async def _wire(loop, backend, cmds, home, tmp, info):
                         resolved = "/" + "/".join(oracle(model_cwd, arg if verb != "CDUP" else ".."))
                         where = "base_parent" if pp == pathlib.PurePosixPath(*base_parts).parent else "elsewhere"
                         tgt = "virtual_root" if resolved == "/" else "below_root"
-                        raise Violation(f"C02/wire/backend_asked_outside_base/{verb}/{name}/{where}/target={tgt}",
-                                        dict(asked=one, op=name, base=str(base), cmd=line, cwd=model_cwd, steps=info["steps"][-5:]))
+                        who = "after_relogin" if info.get("relogins") else "first_login"
+                        raise Violation(f"C02/wire/backend_asked_outside_base/{verb}/{name}/{where}/target={tgt}/{who}",
+                                        dict(asked=one, op=name, base=str(bases[cur[0]]), cmd=line, cwd=model_cwd, steps=info["steps"][-5:]))
             if verb in ("CWD", "CDUP") and code == "250":
                 model_cwd = "/" + "/".join(oracle(model_cwd, arg if verb == "CWD" else ".."))
                 code2, l2 = await raw.cmd("PWD")
@@ -264,7 +296,8 @@ def check_wire(ctx, case):
     finally:
         nt = any(nontrivial_arg("/", a, "posix") for _v, a in cmds)
         ctx.count(case, nt, sample=dict(backend=backend, home=home, steps=info["steps"][:12]),
-                  classes=["be_" + backend] + ["verb_" + v for v, _a in cmds] + (["cwd_changed"] if info["cwd_changes"] else []))
+                  classes=["be_" + backend] + ["verb_" + v for v, _a in cmds] + (["cwd_changed"] if info["cwd_changes"] else [])
+                  + (["relogin_as_other_user"] if info.get("relogins") else []))
 
 
 def part_wire(ctx):
